@@ -195,11 +195,50 @@ NEEDS_R4 = {
  "C18-m2": ("token.go MakeIndices: a token over 255 characters is logged (first 12 characters, %.12q) before the error is returned", "a wordlist password with an entry or separator beyond 255 characters, then MakeIndices"),
 }
 
+NEEDS_R5 = {
+ "C01-m1": ("util.go randomUint32n: `if v := randomUint32(); v < discard { break }` inside the rejection loop — the := shadows v, the rejected word is what gets reduced", "one raw word at or above the threshold with a non-power-of-two bound (byte consumption stays correct)"),
+ "C01-m2": ("util.go randomUint32: rand.Int(rand.Reader, big.NewInt(math.MaxUint32)) instead of the 4-byte read — the upper bound is exclusive, FF FF FF FF is silently redrawn", "a power-of-two bound and that aligned word"),
+ "C02-m1": ("char_gen.go Generate: the filter string built with copy into a Length-byte buffer — multi-byte candidates are cut at Length bytes", "a valid candidate whose required character lies past byte offset Length"),
+ "C02-m2": ("char_sets.go setFromString: runes up to unicode.MaxLatin1 treated as one byte", "any character in U+0080..U+00FF in a custom string"),
+ "C03-m1": ("char_gen.go buildCharacterList: the three independent ifs folded into one first-match switch (Require, Allow, Exclude)", "a class bit both excluded and allowed or required"),
+ "C03-m2": ("char_sets.go requireFilter: misses collected in a uint8 bit mask — 1 << i is 0 from the ninth set on", "nine or more required sets and a candidate missing only a later one"),
+ "C04-m1": ("word_gen.go NewWordList: the un-capitalisable count via `capable := ourWords[:0]; append` — compacts the kept word slice in place", "a list mixing capitalisable and un-capitalisable words (duplicated and lost words, Size unchanged)"),
+ "C04-m2": ("util.go randomUint32n: inner `v := randomUint32()` in the restructured rejection loop shadows the returned variable", "a first raw word in the rejection zone of a non-power-of-two bound"),
+ "C05-m1": ("word_gen.go Generate: title-casing skipped when unicode.IsUpper(rune(w[0])) — w[0] is a byte; UTF-8 lead bytes 0xC2..0xDE are upper-case Latin-1 code points", "a word starting with é, ü, ñ, a Cyrillic or Greek letter at a capitalised position"),
+ "C05-m2": ("word_gen.go NewWordList: `ourWords = list` when nothing was dropped — the word list aliases the caller's slice", "an input without duplicates and a caller that later reuses the slice"),
+ "C06-m1": ("char_sets.go requireFilter: ranges by rune but slices one byte (pwd[i:i+1])", "a required set mixing ASCII and non-ASCII members"),
+ "C06-m2": ("char_strength.go entropyWithRequired: big.Float.Float64() then math.Log2 — overflows to +Inf", "a requiring recipe whose count reaches 2^1024 (default alphabet with Require Digits from Length 173)"),
+ "C07-m1": ("char_gen.go buildCharacterList: required class strings appended onto r.RequireSets — writes into the caller's backing array", "RequireSets with spare capacity shared by two recipes, and a Require flag"),
+ "C07-m2": ("char_strength.go n(): leaf shortcut returns a shared *big.Int for 0 and 1, later mutated by count.Sub(count, avoiding)", "overlapping required sets leaving a one-character alphabet; every later recipe in the process is affected"),
+ "C08-m1": ("word_gen.go NewWordList: the un-capitalisable count compares with strings.ToTitle (upper-cases every letter) instead of strings.Title", "an already-capitalised word (Monday) in a list without caseless words, scheme random/one"),
+ "C08-m2": ("word_gen.go Entropy: the random bonus as log2(1 << uint(Length)) held in an int", "scheme random with Length 63 (NaN) or 64 and more (-Inf)"),
+ "C09-m1": ("util.go randomUint32: the error check becomes n == 0 && err != nil", "a read failing after 1-3 of its 4 bytes"),
+ "C09-m2": ("word_gen.go WLRecipe.Generate: named results and a deferred recover().(error) — the string panic of the source failure is swallowed, (&Password{}, nil) is returned", "any failing read during a wordlist generation"),
+ "C10-m1": ("word_gen.go NewWordList: twins removed with append(ws[:i], ws[i+1:]...) inside a range over ws — the element after a removed one is skipped", "two twin pairs whose capitalised forms are neighbours in byte order (march, may, March, May)"),
+ "C10-m2": ("word_gen.go Generate: strings.ToUpper(w[:1]) + w[1:] instead of strings.Title — the first byte, not the first character", "a word whose first character is non-ASCII at a capitalised position"),
+ "C11-m1": ("token.go maxTokenLen: a helper keeps `&t` of the range variable (go 1.14 semantics: one shared variable) — the last token's length is returned", "an all-atom sequence with a longer atom that ends in a one-character atom"),
+ "C11-m2": ("token.go: the folded length check compares with math.MaxInt8 instead of math.MaxUint8", "a token of 128 to 255 characters"),
+ "C12-m1": ("token.go Tokenize: strings.SplitN(pw, \"\", total) — the last element is the unsplit remainder", "a kind-1/2 index whose lengths sum to less than the string's characters"),
+ "C12-m2": ("token.go Tokenize: `sep, err := takeChars(...)` in the separator branch shadows the err checked after the loop", "kind byte 2 and a string that runs out exactly at a separator token"),
+ "C13-m1": ("char_strength.go SuccessProbability: denominator from len(r.Alphabet()) — bytes, not characters", "a non-ASCII character in the alphabet and at least one requirement (a 0.985 recipe is refused)"),
+ "C13-m2": ("word_gen.go WLRecipe.Generate: make(Tokens, 0, 2*r.Length-1) ahead of the guards — negative capacity panics", "a wordlist recipe with Length <= 0 (WLRecipe{}, NewWLRecipe(0, nil))"),
+ "C14-m1": ("word_gen.go: a title cache map on WordList guarded by a mutex, reached through a value-receiver method — each call locks a private copy of the mutex", "concurrent Generate on one shared list with a capitalising scheme"),
+ "C14-m2": ("char_gen.go buildCharacterList: required classes appended to a local copy of r.RequireSets — on the caller's backing array", "RequireSets with spare capacity, a Require flag, two goroutines"),
+ "C15-m1": ("word_gen.go NewWLRecipe: SeparatorFunc = attrs.fixedSeparator (a method value bound to that one recipe object)", "a copy of a NewWLRecipe recipe whose SeparatorChar is then changed"),
+ "C15-m2": ("char_gen.go buildCharacterList: `custom := append(r.RequireSets[:0], r.RequireSets...)` then sort.Strings(custom) — sorts the caller's slice", "two or more RequireSets entries not in sorted order"),
+ "C16-m1": ("char_gen.go: class sets cached once; the first excluded class is taken by reference and ExcludeChars are added into it", "a recipe with an Exclude class plus ExcludeChars, then any recipe excluding Ambiguous"),
+ "C16-m2": ("word_gen.go NewWordList: `ourWords := list[:0]` — the caller's slice (the exported AgileWords, in opgen) is overwritten in map order", "entry-by-entry comparison of the exported list with testdata after it was passed to NewWordList once"),
+ "C17-m1": ("cmd/opgen main: `pwd, err := generator.Generate()` in the else block shadows the outer err checked at the single exit point", "a command line the library refuses without --entropy (prints nothing, exits 0)"),
+ "C17-m2": ("cmd/opgen loadWordListFile: a bufio ReadString loop that breaks on err != nil — an unterminated last line is dropped", "--file whose last line has no newline"),
+ "C18-m1": ("token.go + word_gen.go: a redacting String() on *Token (pointer receiver) and a log of the token slice when an empty word is skipped — fmt prints []Token elements as values", "a list with an empty entry and a draw selecting it after the first position"),
+ "C18-m2": ("char_gen.go + trace.go: a trace hook logging rejected candidates in a file whose constraint line reads `// go:build spgtrace` (the space makes it a comment: always compiled)", "a recipe with requirements and a first candidate that fails them"),
+}
+
 
 def main():
     src = sys.argv[1]
     rnd = sys.argv[2] if len(sys.argv) > 2 else ""        # "" for round 1, "r2" for round 2
-    needs = NEEDS_R4 if rnd == "r4" else NEEDS_R3 if rnd == "r3" else NEEDS_R2 if rnd == "r2" else NEEDS
+    needs = NEEDS_R5 if rnd == "r5" else NEEDS_R4 if rnd == "r4" else NEEDS_R3 if rnd == "r3" else NEEDS_R2 if rnd == "r2" else NEEDS
     verify = {}
     vf = os.path.join(src, "verify.jsonl")
     if os.path.exists(vf):
